@@ -49,19 +49,15 @@ theorem signals_sOpH (op : MState → Int → List Bytes → Api.R) (hop : ReadO
   one_call
   exact hop st now _ hp
 
-/-- S*STORE, for any read-only operation: `Exists`, then (operands present) the store as a second call;
-    an empty result deletes the destination, which `Api.del` signals -/
+/-- S*STORE, for any read-only operation: one call of the store; an empty result deletes the destination,
+    which `Api.del` signals -/
 theorem signals_sStoreH (op : MState → Int → List Bytes → Api.R) (hop : ReadOnly op) (all : Bool)
     (args : List Bytes) (b : Body) (h : Handler2.sStoreH op all args = .exec b) : SignalsChanges b := by
   unfold Handler2.sStoreH at h
   split at h
   · cases h
-    refine signals_of_frame fun st now ch hp => frame_call2 hp _ _ (frame_exists st hp now _) fun s o hps => ?_
-    dsimp only
-    split
-    · exact Frame.refl _ _
-    · exact (frame_commit s).trans0
-        (frame_call _ _ (fun _ _ => rfl) (frame_sstore op hop (Api.commit s) hps now _ _))
+    exact signals_of_frame fun st now ch hp =>
+      frame_call _ _ (fun _ _ => rfl) (frame_sstore op hop st hp now _ _)
   · cases h
 
 theorem signals_sIsMemberH (args : List Bytes) (b : Body) (h : Handler2.sIsMemberH args = .exec b) :
